@@ -394,3 +394,307 @@ Definition param_type (sig : list ctype) (d : decl) (i : nat) : option ctype :=
 Theorem same_fused_same_member sig d i j :
   nth_error (params d) i = nth_error (params d) j -> param_type sig d i = param_type sig d j.
 Proof. unfold param_type. intros ->. reflexivity. Qed.
+
+(* ---------- dispatch = the documented rules ---------- *)
+(* documented choice as a relation (any member of maximal rank may be taken) *)
+Definition doc_ok (ms : list ctype) (a : atag) (r : option ctype) : Prop :=
+  match r with
+  | Some t =>
+      In t ms /\
+      ((exact a t = true /\
+        forall u, In u ms -> exact a u = true -> py_type_name u = py_type_name t -> trank u <= trank t)
+       \/ ((forall u, In u ms -> exact a u = false) /\ subinst a t = true /\
+           forall u, In u ms -> subinst a u = true -> py_type_name u = py_type_name t -> trank u <= trank t)
+       \/ ((forall u, In u ms -> exact a u = false /\ subinst a u = false) /\ t = TObject))
+  | None => forall u, In u ms -> exact a u = false /\ subinst a u = false /\ u <> TObject
+  end.
+
+(* order conditions on the compiler's preference list (both decidable) *)
+Definition group_sorted (s : list ctype) : Prop :=
+  forall l1 t l2 u, s = l1 ++ t :: l2 -> In u l2 -> py_type_name u = py_type_name t -> trank u <= trank t.
+Definition exact_first (s : list ctype) (a : atag) : Prop :=
+  forall l1 t l2 u, s = l1 ++ t :: l2 -> subinst a t = true -> In u l2 -> exact a u = false.
+
+Lemma find_split {A} (f : A -> bool) l t : find f l = Some t ->
+  exists l1 l2, l = l1 ++ t :: l2 /\ f t = true /\ forall u, In u l1 -> f u = false.
+Proof.
+  induction l as [|x l IH]; simpl; [discriminate|]. destruct (f x) eqn:E.
+  - intros [= <-]. exists [], l. split; [reflexivity|]. split; [exact E|intros u []].
+  - intros H. destruct (IH H) as [l1 [l2 [-> [Ht Hl]]]]. exists (x :: l1), l2.
+    split; [reflexivity|]. split; [exact Ht|]. intros u [<-|Hu]; [exact E|now apply Hl].
+Qed.
+
+Lemma scalar_hit_split a t : is_mem t = false ->
+  inst_of a t && negb (is_obj t) = exact a t || subinst a t.
+Proof.
+  intros M. unfold inst_of.
+  destruct t as [[r g| |r|r]| |b|k|n d m]; try discriminate; simpl;
+    destruct a as [| | | | | | | |b'|mro| |bf]; simpl;
+    rewrite ?andb_true_r, ?andb_false_r, ?orb_false_r; try reflexivity;
+    try (destruct mro as [|k0 bases]; simpl; try reflexivity).
+  - destruct b, b'; reflexivity.
+  - now rewrite Nat.eqb_sym.
+Qed.
+Lemma sub_not_mem a t u : subinst a t = true -> is_mem u = true -> exact a u = false.
+Proof.
+  intros H M. destruct u; try discriminate M.
+  destruct a; try reflexivity; try (destruct mro; reflexivity);
+    destruct t as [[]| | | |]; simpl in H; discriminate H.
+Qed.
+Lemma sub_mem_false a u : is_mem u = true -> subinst a u = false.
+Proof. intros M. destruct u; try discriminate M. destruct a; try reflexivity. destruct mro; reflexivity. Qed.
+Lemma name_mem t u : py_type_name u = py_type_name t -> is_mem t = is_mem u.
+Proof. destruct t as [[]| | | |], u as [[]| | | |]; simpl; intros H; try discriminate; reflexivity. Qed.
+
+Lemma buffer_checks_exact fx bufs a t :
+  buffer_checks fx bufs a = Some t -> (forall u, In u bufs -> is_mem u = true) ->
+  (fx = true \/ contig_safe bufs a) -> In t bufs /\ exact a t = true.
+Proof.
+  intros H Hm Hs. destruct a; simpl in H; try discriminate.
+  - destruct bufs as [|u tl]; simpl in H; [discriminate|]. injection H as <-.
+    split; [now left|]. specialize (Hm u (or_introl eq_refl)). destruct u; try discriminate. reflexivity.
+  - assert (Hex : forall u, In u bufs -> coerce_ok u b = true -> exact (ABuf b) u = true).
+    { intros u Hu Hc. specialize (Hm u Hu). destruct u; try discriminate. exact Hc. }
+    destruct (if has_dtype b then find (fun t0 => if fx then coerce_ok t0 b else fast_ok t0 b) bufs else None)
+      as [u|] eqn:F.
+    + injection H as <-. destruct (has_dtype b); [|discriminate].
+      apply find_some in F. destruct F as [Hin Hp]. split; [exact Hin|]. apply Hex; [exact Hin|].
+      destruct fx; [exact Hp|]. destruct Hs as [Hs|Hs]; [discriminate|]. apply (Hs b u eq_refl Hin Hp).
+    + apply find_some in H. destruct H as [Hin Hp]. split; [exact Hin|]. now apply Hex.
+Qed.
+Lemma buffer_checks_none fx bufs a :
+  buffer_checks fx bufs a = None -> forall u, In u bufs -> is_mem u = true -> exact a u = false.
+Proof.
+  intros H u Hu Hm. destruct u as [| | | |n d m]; try discriminate Hm.
+  destruct a as [| | | | | | | |b'|mro| |bf]; try reflexivity; try (destruct mro; reflexivity); simpl in H.
+  - destruct bufs; [destruct Hu|discriminate].
+  - destruct (if has_dtype bf then _ else None); [discriminate|].
+    apply (find_none _ _ H _ Hu).
+Qed.
+
+(* C34 (partial): for every member list, argument tag and id order, if the compiler's
+   preference list keeps every py_type_name group in rank order and puts exact matches
+   before base-class matches, and the numpy fast path cannot pick a member that the full
+   check rejects (or the fast path is repaired), the mapper's answer obeys the documented
+   rules *)
+Theorem map_fused_documented fx idlt ms a :
+  let s := pysort (ty_lt idlt) ms in
+  group_sorted s -> exact_first s a -> (fx = true \/ contig_safe ms a) ->
+  doc_ok ms a (map_fused fx idlt ms a).
+Proof.
+  intros s Hg He Hs. rewrite map_fused_spec. fold s. unfold map_spec.
+  assert (Hin : forall u, In u s <-> In u ms) by (intros u; apply pysort_in).
+  destruct (find (fun t0 => inst_of a t0 && negb (is_obj t0)) s) as [t|] eqn:F.
+  - apply find_split in F. destruct F as [l1 [l2 [Es [Ht Hl1]]]].
+    assert (Mt : is_mem t = false).
+    { destruct t; try reflexivity. unfold inst_of in Ht. simpl in Ht. discriminate. }
+    assert (Tin : In t s) by (rewrite Es; apply in_or_app; right; now left).
+    simpl. split; [now apply Hin|].
+    assert (Hbefore : forall u, In u l1 -> py_type_name u = py_type_name t ->
+                       exact a u = false /\ subinst a u = false).
+    { intros u Hu Hn. specialize (Hl1 u Hu). rewrite scalar_hit_split in Hl1.
+      - now apply orb_false_iff in Hl1.
+      - rewrite <- (name_mem t u Hn). exact Mt. }
+    rewrite (scalar_hit_split a t Mt) in Ht. apply orb_true_iff in Ht.
+    destruct (exact a t) eqn:Ex.
+    + left. split; [reflexivity|]. intros u Hu Hx Hn. apply Hin in Hu. rewrite Es in Hu.
+      apply in_app_or in Hu. destruct Hu as [Hu|[<-|Hu]]; [|lia|now apply (Hg l1 t l2 u Es Hu Hn)].
+      destruct (Hbefore u Hu Hn) as [C _]. congruence.
+    + destruct Ht as [Ht|Ht]; [discriminate|]. right; left. split; [|split; [exact Ht|]].
+      * intros u Hu. apply Hin in Hu. rewrite Es in Hu.
+        apply in_app_or in Hu. destruct Hu as [Hu|[<-|Hu]]; [|exact Ex|now apply (He l1 t l2 u Es Ht Hu)].
+        destruct (is_mem u) eqn:Mu; [now apply (sub_not_mem a t u Ht Mu)|].
+        specialize (Hl1 u Hu). rewrite (scalar_hit_split a u Mu) in Hl1. now apply orb_false_iff in Hl1.
+      * intros u Hu Hx Hn. apply Hin in Hu. rewrite Es in Hu.
+        apply in_app_or in Hu. destruct Hu as [Hu|[<-|Hu]]; [|lia|now apply (Hg l1 t l2 u Es Hu Hn)].
+        destruct (Hbefore u Hu Hn) as [_ C]. congruence.
+  - assert (Hsc : forall u, In u ms -> is_mem u = false -> exact a u = false /\ subinst a u = false).
+    { intros u Hu Mu. apply Hin in Hu. pose proof (find_none _ _ F u Hu) as N. simpl in N.
+      rewrite (scalar_hit_split a u Mu) in N. now apply orb_false_iff in N. }
+    assert (Hbm : forall u, In u (filter is_mem s) -> is_mem u = true) by (intros u Hu; now apply filter_In in Hu).
+    destruct (buffer_checks fx (filter is_mem s) a) as [t|] eqn:B.
+    + apply buffer_checks_exact in B; [|exact Hbm|].
+      * destruct B as [Tin Ex]. apply filter_In in Tin. destruct Tin as [Tin Mt]. simpl.
+        split; [now apply Hin|]. left. split; [exact Ex|].
+        intros u Hu _ Hn. pose proof (name_mem t u Hn) as Q. rewrite Mt in Q.
+        destruct t; try discriminate Mt. destruct u; try discriminate Q. simpl. lia.
+      * destruct Hs as [Hs|Hs]; [now left|right]. intros b t0 Ha Hi. apply Hs; [exact Ha|].
+        apply filter_In in Hi. now apply Hin.
+    + assert (Hall : forall u, In u ms -> exact a u = false /\ subinst a u = false).
+      { intros u Hu. destruct (is_mem u) eqn:Mu; [|now apply Hsc]. split; [|now apply sub_mem_false].
+        apply (buffer_checks_none fx _ a B u); [|exact Mu]. apply filter_In. split; [now apply Hin|exact Mu]. }
+      destruct (existsb is_obj s) eqn:O; simpl.
+      * apply existsb_exists in O. destruct O as [u [Hu Ou]]. destruct u; try discriminate.
+        split; [now apply Hin|]. right; right. split; [exact Hall|reflexivity].
+      * intros u Hu. destruct (Hall u Hu) as [H1 H2]. split; [exact H1|split; [exact H2|]].
+        intros ->. apply Hin in Hu. assert (existsb is_obj s = true) by (apply existsb_exists; exists TObject; now split).
+        congruence.
+Qed.
+
+(* the executable documented choice satisfies the relation *)
+Lemma biggest_in l t : biggest l = Some t -> In t l.
+Proof.
+  revert t. induction l as [|x l IH]; simpl; [discriminate|]. intros t.
+  destruct (biggest l) as [u|]; [|intros [= <-]; now left].
+  destruct (is_numeric x && is_numeric u && (trank x <? trank u)); intros [= <-]; [right; now apply IH|now left].
+Qed.
+
+(* ---------- explicit indexing ---------- *)
+Lemma index_key_eq {K} (keq : K -> K -> bool) (name : ctype -> K) :
+  (forall x y, keq x y = true <-> x = y) ->
+  forall s idx, (Nat.eqb (length s) (length idx) &&
+                 forallb (fun p => keq (name (fst p)) (snd p)) (combine s idx)) = true <-> map name s = idx.
+Proof.
+  intros Hk. induction s as [|t s IH]; intros [|k idx]; simpl; split; intros H; try discriminate; try reflexivity.
+  - apply andb_true_iff in H. destruct H as [H1 H2]. apply andb_true_iff in H2. destruct H2 as [H2 H3].
+    apply Hk in H2. subst k. f_equal. apply IH. now rewrite H1, H3.
+  - injection H as <- <-. specialize (proj2 (IH (map name s)) eq_refl) as H.
+    apply andb_true_iff in H. destruct H as [H1 H2]. rewrite H1, H2.
+    replace (keq (name t) (name t)) with true by (symmetry; now apply Hk). reflexivity.
+Qed.
+(* func[idx] returns a signature of the function whose key is exactly the index, and raises
+   KeyError exactly when no signature has that key *)
+Theorem getitem_exact {K} (keq : K -> K -> bool) (name : ctype -> K) sigs idx :
+  (forall x y, keq x y = true <-> x = y) ->
+  match getitem keq name sigs idx with
+  | IFound s => In s sigs /\ map name s = idx
+  | IKeyError => forall s, In s sigs -> map name s <> idx
+  end.
+Proof.
+  intros Hk. unfold getitem.
+  destruct (find _ sigs) as [s|] eqn:F.
+  - apply find_some in F. destruct F as [Hin Hp]. split; [exact Hin|]. now apply (index_key_eq keq name Hk).
+  - intros s Hin Hm. pose proof (find_none _ _ F s Hin) as N. simpl in N.
+    apply (index_key_eq keq name Hk) in Hm. congruence.
+Qed.
+
+(* ---------- the tree as it is: witnesses against the documented rules ---------- *)
+Definition idlt0 (k : tclass) : bool := false.
+Definition t_short := TNum (NInt 2 1).   Definition t_int := TNum (NInt 4 1).
+Definition t_long := TNum (NInt 6 1).    Definition t_ulong := TNum (NInt 6 0).
+Definition t_double := TNum (NFloat 12). Definition t_dcomplex := TNum (NComplex 12).
+Definition t_bint := TNum NBint.
+
+(* {short, double complex, long}: an int argument gets short, not the biggest int type *)
+Lemma refuted_numeric_order :
+  map_fused false idlt0 [t_short; t_dcomplex; t_long] AInt = Some t_short /\
+  doc_choice [t_short; t_dcomplex; t_long] AInt = Some t_long /\
+  ~ doc_ok [t_short; t_dcomplex; t_long] AInt (Some t_short).
+Proof.
+  split; [reflexivity|split; [reflexivity|]]. intros [_ [[_ H]|[[H _]|[_ H]]]].
+  - specialize (H t_long (or_intror (or_intror (or_introl eq_refl))) eq_refl eq_refl). vm_compute in H. now apply H.
+  - specialize (H t_short (or_introl eq_refl)). discriminate.
+  - discriminate.
+Qed.
+(* {short, unsigned long}: 40000 is sent to the short specialisation *)
+Lemma refuted_unsigned : map_fused false idlt0 [t_short; t_ulong] AInt = Some t_short /\
+                         doc_choice [t_short; t_ulong] AInt = Some t_ulong.
+Proof. split; reflexivity. Qed.
+(* {bint, long}: True is not given to the exact match bint *)
+Lemma refuted_bool : map_fused false idlt0 [t_bint; t_long] ABool = Some t_long /\
+                     doc_choice [t_bint; t_long] ABool = Some t_bint.
+Proof. split; reflexivity. Qed.
+(* {A0, A1(A0)}: an A1 instance is given to the base class specialisation *)
+Lemma refuted_ext : map_fused false idlt0 [TExt 0; TExt 1] (AInst [1; 0]%nat) = Some (TExt 0) /\
+                    doc_choice [TExt 0; TExt 1] (AInst [1; 0]%nat) = Some (TExt 1).
+Proof. split; reflexivity. Qed.
+(* {long[::1], long[:]} with a non-contiguous int64 ndarray: the numpy fast path selects
+   long[::1], whose conversion raises ValueError; the documented choice long[:] exists.
+   With the repaired fast path the call runs long[:] *)
+Definition d_mem := {| ftypes := [{| members := [TMem (NInt 6 1) 1 MCContig; TMem (NInt 6 1) 1 MStrided]; fpos := 0 |}];
+                       params := [0%nat] |}.
+Definition a_strided := ABuf {| b_src := SNd; b_kind := DKInt; b_size := 8; b_ndim := 1; b_cc := false; b_fc := false |}.
+Lemma refuted_fastpath :
+  call_cy false idlt0 d_mem [a_strided] = ValueErr /\
+  doc_call d_mem [a_strided] = Ran [TMem (NInt 6 1) 1 MStrided] /\
+  call_cy true idlt0 d_mem [a_strided] = Ran [TMem (NInt 6 1) 1 MStrided].
+Proof. repeat split; reflexivity. Qed.
+(* a fused type with a single member: "no match" is a wildcard for match_signatures *)
+Definition d_single := {| ftypes := [{| members := [t_double]; fpos := 0 |}; {| members := [t_int; t_double]; fpos := 1 |}];
+                          params := [0%nat; 1%nat] |}.
+Lemma refuted_wildcard :
+  map_fused false idlt0 [t_double] AInt = None /\
+  dispatch_cy false idlt0 d_single [AInt; AFloat] = Spec [t_double; t_double] /\
+  doc_call d_single [AInt; AFloat] = TypeErr.
+Proof. repeat split; reflexivity. Qed.
+
+(* ---------- decidable forms of the order conditions ---------- *)
+Definition opt_name_eqb (x y : option pyname) : bool :=
+  match x, y with Some p, Some q => pyname_eqb p q | None, None => true | _, _ => false end.
+Lemma opt_name_eqb_eq x y : opt_name_eqb x y = true <-> x = y.
+Proof.
+  destruct x as [p|], y as [q|]; simpl; split; intros H; try discriminate; try reflexivity.
+  - apply pyname_eqb_eq in H. now subst. - injection H as ->. now apply pyname_eqb_eq.
+Qed.
+Fixpoint group_sortedb (s : list ctype) : bool :=
+  match s with
+  | [] => true
+  | t :: tl => forallb (fun u => negb (opt_name_eqb (py_type_name u) (py_type_name t)) || (trank u <=? trank t)) tl
+               && group_sortedb tl
+  end.
+Fixpoint exact_firstb (s : list ctype) (a : atag) : bool :=
+  match s with
+  | [] => true
+  | t :: tl => (negb (subinst a t) || forallb (fun u => negb (exact a u)) tl) && exact_firstb tl a
+  end.
+Lemma group_sortedb_ok s : group_sortedb s = true -> group_sorted s.
+Proof.
+  unfold group_sorted. induction s as [|x s IH]; intros H l1 t l2 u E Hu Hn.
+  - destruct l1; discriminate.
+  - simpl in H. apply andb_true_iff in H. destruct H as [H1 H2].
+    destruct l1 as [|y l1]; simpl in E; injection E as -> ->.
+    + rewrite forallb_forall in H1. specialize (H1 u Hu). apply orb_true_iff in H1. destruct H1 as [H1|H1].
+      * apply negb_true_iff in H1. assert (opt_name_eqb (py_type_name u) (py_type_name t) = true) by now apply opt_name_eqb_eq.
+        congruence.
+      * now apply Z.leb_le.
+    + now apply (IH H2 l1 t l2 u eq_refl).
+Qed.
+Lemma exact_firstb_ok s a : exact_firstb s a = true -> exact_first s a.
+Proof.
+  unfold exact_first. induction s as [|x s IH]; intros H l1 t l2 u E Hs Hu.
+  - destruct l1; discriminate.
+  - simpl in H. apply andb_true_iff in H. destruct H as [H1 H2].
+    destruct l1 as [|y l1]; simpl in E; injection E as -> ->.
+    + rewrite Hs in H1. simpl in H1. rewrite forallb_forall in H1. specialize (H1 u Hu). now apply negb_true_iff.
+    + now apply (IH H2 l1 t l2 u eq_refl).
+Qed.
+Definition contig_safeb (ms : list ctype) (a : atag) : bool :=
+  match a with ABuf b => forallb (fun t => negb (fast_ok t b) || coerce_ok t b) ms | _ => true end.
+Lemma contig_safeb_ok ms a : contig_safeb ms a = true -> contig_safe ms a.
+Proof.
+  unfold contig_safe. intros H b t -> Hin Hf. simpl in H. rewrite forallb_forall in H.
+  specialize (H t Hin). rewrite Hf in H. exact H.
+Qed.
+
+(* the decidable form of the theorem, as used by Prop/C34.v *)
+Corollary map_fused_documented_b fx idlt ms a :
+  group_sortedb (pysort (ty_lt idlt) ms) = true ->
+  exact_firstb (pysort (ty_lt idlt) ms) a = true ->
+  fx || contig_safeb ms a = true ->
+  doc_ok ms a (map_fused fx idlt ms a).
+Proof.
+  intros H1 H2 H3. apply map_fused_documented;
+    [now apply group_sortedb_ok|now apply exact_firstb_ok|].
+  apply orb_true_iff in H3. destruct H3 as [H3|H3]; [now left|right; now apply contig_safeb_ok].
+Qed.
+
+(* lists on which __lt__ never answers True (extension types, builtins, object, memoryviews
+   only) keep their declared order: there the conditions speak about the declaration itself *)
+Lemma ty_lt_unordered idlt ms :
+  (forall t, In t ms -> match t with TNum _ => False | _ => True end) ->
+  (forall t, In t ms -> is_mem t = true -> forall u, In u ms -> is_mem u = true) ->
+  pysort (ty_lt idlt) ms = ms.
+Proof.
+  intros Hn Hm. destruct ms as [|x [|y rest]]; try reflexivity.
+  unfold pysort. cbn [count_run].
+  assert (L : forall a b, In a (x :: y :: rest) -> In b (x :: y :: rest) -> ty_lt idlt a b = false).
+  { intros a b Ha Hb. pose proof (Hn a Ha) as Na. destruct a; try reflexivity; [destruct Na|].
+    pose proof (Hm _ Ha eq_refl b Hb) as Mb. destruct b; try discriminate. reflexivity. }
+  rewrite (L y x) by (simpl; auto).
+  assert (T : forall prev l, In prev (x :: y :: rest) -> incl l (x :: y :: rest) ->
+              take_asc (ty_lt idlt) prev l = (l, [])).
+  { intros prev l. revert prev. induction l as [|z l IH]; intros prev Hp Hl; simpl; [reflexivity|].
+    rewrite (L z prev (Hl z (or_introl eq_refl)) Hp). rewrite IH; [reflexivity|apply Hl; now left|].
+    intros w Hw. apply Hl. now right. }
+  rewrite T; [reflexivity|simpl; auto|]. intros w Hw. right; right; exact Hw.
+Qed.
